@@ -419,6 +419,8 @@ class BackendProvider(ABC):
 
         # Numeric scalars: tolerant comparison
         if self.is_number(a) and self.is_number(b):
+            if self.is_integer(a) and self.is_integer(b):
+                return bool(a == b)  # integers are compared exactly, only reals with a tolerance
             result = np.isclose(a, b)
             if hasattr(result, 'item'):
                 return bool(result.item())
